@@ -73,9 +73,18 @@ def scal(x) -> str:
     return "n" + rs(frac(x))
 
 
-def _val_tok(x) -> str:
-    """one value of a time / time-delta format: floats exactly, datetime / timedelta as whole microseconds"""
+GPS_ONLY_FORMATS = ("gps_ws", "gps_seconds")
+
+
+def _val_tok(x, micro: bool = False) -> str:
+    """one value of a time / time-delta format: floats exactly, datetime / timedelta as whole microseconds.
+    `micro`: the value is compared to the microsecond (formats gps_ws / gps_seconds: `TimeBase.__new__` stores
+    from_jds(to_jds(value)), which moves a value of 1.2e9 s by an ulp (2.4e-7 s) at every insert; the epochs of the
+    generators lie on whole microseconds)"""
     import datetime as _dt
+
+    if micro and not isinstance(x, (_dt.datetime, _dt.timedelta, str, np.str_)) and float(x) == float(x):
+        return "n" + rs(Fraction(round(float(x) * 10**6), 10**6))
 
     if isinstance(x, _dt.datetime):
         return "n" + str((x - _dt.datetime.min) // _dt.timedelta(microseconds=1))
@@ -86,7 +95,7 @@ def _val_tok(x) -> str:
     return scal(x)
 
 
-def time_rows(kind: str, j1, j2, vals, n: int):
+def time_rows(kind: str, j1, j2, vals, n: int, micro: bool = False):
     """(ndim, cols, rows) of a time / time delta with its values: a row is jd1, jd2, then the value(s) in the format of
     the array; an empty epoch (datetime.min) is all-NaN"""
     j1 = np.atleast_1d(np.asarray(j1, dtype=float))
@@ -103,7 +112,7 @@ def time_rows(kind: str, j1, j2, vals, n: int):
         if kind == "time" and abs(frac(a) + frac(b) - EMPTY_TIME_JD) < 2:
             rows.append(["nan"] * (2 + cols))
         else:
-            vs = [_val_tok(v[i])] if v.ndim == 1 else [_val_tok(x) for x in v[i]]
+            vs = [_val_tok(v[i], micro)] if v.ndim == 1 else [_val_tok(x, micro) for x in v[i]]
             rows.append([scal(a), scal(b)] + vs)
     return ndim, cols, rows
 
@@ -129,7 +138,7 @@ def describe(o, tv: bool = False) -> tuple:
     if isinstance(o, (TimeArray, TimeDeltaArray)):
         kind = "time" if isinstance(o, TimeArray) else "time_delta"
         if tv:
-            ndim, cols, rows = time_rows(kind, o.jd1, o.jd2, np.asarray(o), len(o))
+            ndim, cols, rows = time_rows(kind, o.jd1, o.jd2, np.asarray(o), len(o), o.fmt in GPS_ONLY_FORMATS)
             return kind, ndim, cols, rows
         j1 = np.atleast_1d(np.asarray(o.jd1, dtype=float))
         j2 = np.atleast_1d(np.asarray(o.jd2, dtype=float))
@@ -307,7 +316,7 @@ class ConvTable:
                 # the lines of `TimeBase.insert`
                 b = b if ts == fs else getattr(b, ts)
                 vals = np.asarray(b) if tf == b.fmt else np.asarray(getattr(b, tf)).T
-                _, _, out = time_rows("time_delta" if delta else "time", b.jd1, b.jd2, vals, len(rows))
+                _, _, out = time_rows("time_delta" if delta else "time", b.jd1, b.jd2, vals, len(rows), tf in GPS_ONLY_FORMATS)
         except Exception:
             return None
         if len(out) != len(rows) or any(x[0].startswith("!") for x in out):
@@ -380,7 +389,10 @@ class RealWorld:
             return np.array(v, dtype=str).reshape((n,) if op["ndim"] == 1 else (n, cols))
         if k == "time" and op.get("conv_of") is not None:
             # the (cached) conversion of another array to a time scale, kept as a field: `add_time("t_gps", val=t.gps)`
-            return getattr(self.resolve(op["conv_of"]), op["scale"])
+            res = getattr(self.resolve(op["conv_of"]), op["scale"])
+            # (the cache is keyed by value: the same array may come back for two equal-valued sources; every `obj` of
+            # the protocol is a new object, so a repeated one is copied)
+            return res.copy() if any(x is res for x in self.objs) else res
         if k == "time":
             return make_time(v, op.get("scale", "utc"), op.get("fmt", "mjd"))
         if k == "time_delta":
